@@ -197,21 +197,26 @@ func c11Flag(e *Env, loop, try *ssa.Function) {
 				disp = c
 			}
 		})
-		var storeF, storeT ssa.Instruction
-		for _, c := range core.Calls(loop, func(n string, _ ssa.CallInstruction) bool { return strings.HasSuffix(n, "atomic.Bool.Store") }) {
-			if core.Resolve(core.Arg(c, 0)) != ssa.Value(flag) {
+		var storeF, storeT, innerT ssa.Instruction
+		for _, fs := range flagStores(loop) {
+			if core.Resolve(fs.target) != ssa.Value(flag) {
 				continue
 			}
-			if b, ok := core.ConstBool(core.Arg(c, 1)); ok && !b {
-				storeF = c.(ssa.Instruction)
-			} else if ok && b {
-				storeT = c.(ssa.Instruction)
+			// order is decided where the dispatch lives: inside the helper when store and dispatch moved there together
+			at := fs.site
+			if disp != nil && fs.inner.Parent() == disp.Parent() {
+				at = fs.inner
+			}
+			if !fs.val {
+				storeF = at
+			} else {
+				storeT, innerT = at, fs.inner
 			}
 		}
 		ok := disp != nil && storeF != nil && storeT != nil && core.Dominates(storeF, disp) && core.Dominates(disp, storeT)
 		if ok {
 			la := core.AnalyzeLocks(loop)
-			ok = len(la.At(storeT)) == 1 && len(la.At(disp)) == 0
+			ok = len(la.At(innerT)) == 1 && len(la.At(disp)) == 0
 		}
 		e.R.Check(ok, rule, "net/client.ReceivedMessageReader.loop:flag-discipline", e.fpos(loop), "own flag: Store(false) → dispatch (no lock held) → Store(true) under the mutex", "the loop does not clear its own reading flag before dispatch and set it again under the mutex afterwards")
 	}
@@ -270,7 +275,12 @@ func c11Flag(e *Env, loop, try *ssa.Function) {
 		for _, i := range core.IfsOf(try) {
 			cond, neg := core.StripNot(i.Cond)
 			cond = core.Resolve(cond) // the flag may be read through a small helper predicate
-			if c, is := cond.(*ssa.Call); is && strings.HasSuffix(core.CalleeName(c), "atomic.Bool.Load") {
+			c, is := cond.(*ssa.Call)
+			isFlagRead := is && strings.HasSuffix(core.CalleeName(c), "atomic.Bool.Load")
+			if ld, isLd := cond.(*ssa.UnOp); isLd && ld.Op == token.MUL && fieldNameOf(ld.X) == "readingMessages" {
+				isFlagRead = true // a plain bool behind the pointer, read under the mutex
+			}
+			if isFlagRead {
 				k := 0
 				if neg {
 					k = 1
@@ -468,6 +478,19 @@ func freshTrueFlag(v ssa.Value) bool {
 			return isB && b
 		}
 	case *ssa.Alloc:
+		if pt, isP := x.Type().Underlying().(*types.Pointer); isP {
+			if b, isB := pt.Elem().Underlying().(*types.Basic); isB && b.Kind() == types.Bool {
+				// a plain bool on the heap, initialised to true
+				for _, u := range core.Referrers(x) {
+					if st, ok := u.(*ssa.Store); ok && st.Addr == ssa.Value(x) {
+						if v, isC := core.ConstBool(st.Val); isC && v {
+							return true
+						}
+					}
+				}
+				return false
+			}
+		}
 		if !strings.HasSuffix(core.TypeName(x.Type()), "atomic.Bool") {
 			return false
 		}
@@ -482,4 +505,75 @@ func freshTrueFlag(v ssa.Value) bool {
 		return set
 	}
 	return false
+}
+
+// flagStore is a store of a constant into a boolean flag: an atomic Store call, a plain `*p = k`, or a call of a helper analysed
+// as part of the function that does one of the two with its parameters (site = the call, inner = the store in the helper).
+type flagStore struct {
+	site, inner ssa.Instruction
+	target      ssa.Value
+	val         bool
+}
+
+func flagStores(f *ssa.Function) []flagStore {
+	var out []flagStore
+	direct := func(in ssa.Instruction) (target, val ssa.Value, ok bool) {
+		switch x := in.(type) {
+		case *ssa.Call:
+			if strings.HasSuffix(core.CalleeName(x), "atomic.Bool.Store") && len(x.Call.Args) == 2 {
+				return x.Call.Args[0], x.Call.Args[1], true
+			}
+		case *ssa.Store:
+			if pt, isP := x.Addr.Type().Underlying().(*types.Pointer); isP {
+				if b, isB := pt.Elem().Underlying().(*types.Basic); isB && b.Kind() == types.Bool {
+					return x.Addr, x.Val, true
+				}
+			}
+		}
+		return nil, nil, false
+	}
+	core.InstrsOwn(f, func(in ssa.Instruction) {
+		if t, v, ok := direct(in); ok {
+			if b, isB := core.ConstBool(v); isB {
+				out = append(out, flagStore{in, in, t, b})
+			}
+			return
+		}
+		c, ok := in.(*ssa.Call)
+		if !ok {
+			return
+		}
+		h := c.Call.StaticCallee()
+		if h == nil || !core.IsAbsorbed(h) {
+			return
+		}
+		if o := h.Origin(); o != nil && len(o.Blocks) > 0 {
+			h = o
+		}
+		core.InstrsOwn(h, func(hin ssa.Instruction) {
+			t, v, isSt := direct(hin)
+			if !isSt {
+				return
+			}
+			argOf := func(x ssa.Value) ssa.Value {
+				for i, p := range h.Params {
+					if core.Unwrap(x) == ssa.Value(p) && i < len(c.Call.Args) {
+						return c.Call.Args[i]
+					}
+				}
+				return nil
+			}
+			ta, va := argOf(t), argOf(v)
+			if ta == nil {
+				return
+			}
+			if va == nil {
+				va = v
+			}
+			if b, isB := core.ConstBool(va); isB {
+				out = append(out, flagStore{in, hin, ta, b})
+			}
+		})
+	})
+	return out
 }
